@@ -977,6 +977,16 @@ func checkEmitterNaming(c *Ctx, rule string, e *core.Func, trim, idFunc, cbName 
 			}
 			for _, o := range job.Run() {
 				cur := map[string]string{}
+				emits := false
+				for _, evs := range o.Events {
+					if strings.HasPrefix(evs, "use=") {
+						emits = true
+					}
+				}
+				if !emits && o.Kind == "next" {
+					okAll = false
+					detail = fmt.Sprintf(" — for last=%v a path through the loop body goes on to the next value without emitting a match set: when the skipped value is the last one no set carries the rule's outbound and the rule fuses with the next one", last)
+				}
 				for _, evs := range o.Events {
 					if strings.HasPrefix(evs, "name:") {
 						kv := strings.SplitN(strings.TrimPrefix(evs, "name:"), "=", 2)
